@@ -553,8 +553,94 @@ const BODY_CLASSICAL: [&str; 7] = [
     "PRAGMA hello",
     "WAIT",
 ];
-const BODY_CONTROL: [&str; 4] = ["LABEL @l", "JUMP @l", "JUMP-WHEN @m ro[0]", "LABEL @m"];
+const BODY_CONTROL: [&str; 8] = [
+    "LABEL @l",
+    "JUMP @l",
+    "JUMP-WHEN @m ro[0]",
+    "LABEL @m",
+    "HALT",
+    "HALT",
+    "JUMP-UNLESS @l ro[1]",
+    "JUMP @m",
+];
 const BODY_UNSCHEDULABLE: [&str; 2] = ["H1 0", "BELL 0 1"];
+
+/// Instructions that, in the full environment, are the only user of some frame / waveform /
+/// extern pragma when nothing else in the body touches it (directly, or through a DEFCAL /
+/// DEFCAL MEASURE expansion, or a CALL inside a calibration body).
+const SOLE_USERS: [&str; 27] = [
+    "PULSE 0 \"rf\" w1",
+    "NONBLOCKING PULSE 0 1 \"cz\" w2",
+    "CAPTURE 0 \"ro\" flat(duration: 1.0) ro[0]",
+    "CAPTURE 0 \"ro\" w2 ro[0]",
+    "RAW-CAPTURE 0 \"ro\" 1.0 th",
+    "SET-FREQUENCY 0 \"rf\" 1.0",
+    "SET-PHASE 0 \"rf\" 1.0",
+    "SET-SCALE 0 \"rf\" 1.0",
+    "SHIFT-FREQUENCY 0 \"ro\" 2.0",
+    "SHIFT-PHASE 1 0 \"cz\" 2.0",
+    "SWAP-PHASES 0 \"rf\" 1 \"rf\"",
+    "DELAY 0 \"rf\" 1.0",
+    "DELAY 0 1.0",
+    "DELAY 0 1 \"cz\" 1.0",
+    "FENCE 0",
+    "FENCE",
+    "RESET 0",
+    "X 0",
+    "X 1",
+    "Y 0",
+    "Z 0",
+    "T 0",
+    "CZ 0 1",
+    "MEASURE 0 ro[0]",
+    "MEASURE 1 ro[1]",
+    "CALL foo x",
+    "CALL bar x[1] 2",
+];
+/// another user of unrelated definitions (frame 2 "rf", waveform w3, through DEFCAL X q)
+const OTHER_USER: &str = "X 2";
+
+/// Control-flow skeletons: `U` = the sole user, `V` = the other user.  HALT / JUMP / JUMP-WHEN /
+/// JUMP-UNLESS / LABEL in every position relative to U: before, between, after, HALT first,
+/// several HALTs, dead code after an unconditional JUMP, code reachable only through a label
+/// behind a HALT, loops.
+const SKELETONS: [&[&str]; 22] = [
+    &["U"],
+    &["HALT", "U"],
+    &["U", "HALT"],
+    &["HALT", "HALT", "U"],
+    &["HALT", "U", "HALT"],
+    &["V", "HALT", "U"],
+    &["U", "HALT", "V"],
+    &["HALT", "V", "HALT", "U", "HALT"],
+    &["JUMP @a", "U", "LABEL @a"],
+    &["JUMP @a", "HALT", "LABEL @a", "U"],
+    &["JUMP-WHEN @a ro[0]", "HALT", "LABEL @a", "U"],
+    &["JUMP-UNLESS @a ro[0]", "HALT", "LABEL @a", "U", "HALT"],
+    &["JUMP-UNLESS @a ro[0]", "U", "HALT", "LABEL @a", "V"],
+    &["LABEL @a", "U", "JUMP @a"],
+    &["LABEL @a", "HALT", "LABEL @b", "U"],
+    &["JUMP @b", "LABEL @a", "U", "HALT", "LABEL @b", "JUMP-WHEN @a ro[0]", "HALT"],
+    &["V", "JUMP-UNLESS @a ro[0]", "V", "HALT", "LABEL @a", "V", "HALT", "U"],
+    &["HALT", "LABEL @a", "U", "JUMP-WHEN @a ro[0]", "HALT", "V"],
+    &["U", "JUMP @a", "HALT", "LABEL @a", "HALT"],
+    &["V", "JUMP @a", "U", "HALT", "LABEL @a", "V"],
+    &["LABEL @a", "V", "JUMP-WHEN @b ro[1]", "HALT", "LABEL @b", "U", "JUMP-UNLESS @a ro[0]", "HALT"],
+    &["JUMP @a", "LABEL @b", "HALT", "LABEL @a", "JUMP @c", "HALT", "LABEL @c", "U"],
+];
+
+fn skeleton_program(env: &str, skeleton: &[&str], user: &str) -> String {
+    let mut s = env.to_string();
+    for line in skeleton {
+        s.push_str(match *line {
+            "U" => user,
+            "V" => OTHER_USER,
+            other => other,
+        });
+        s.push('\n');
+    }
+    s
+}
 
 fn subset(rng: &mut Rng, items: &[&str], num: usize, den: usize) -> String {
     let mut s = String::new();
@@ -670,6 +756,25 @@ fn main() {
     ] {
         run_case(&mut cx, src);
     }
+    // (1c) control-flow skeletons x sole users, in the full environment
+    for sk in SKELETONS.iter() {
+        for u in SOLE_USERS.iter() {
+            cx.run.count("skeleton case");
+            run_case(&mut cx, &skeleton_program(&env, sk, u));
+        }
+    }
+    // two different sole users on either side of a HALT / behind a jump
+    for (k, u1) in SOLE_USERS.iter().enumerate() {
+        let u2 = SOLE_USERS[(k * 7 + 3) % SOLE_USERS.len()];
+        for body in [
+            format!("{u1}\nHALT\n{u2}\n"),
+            format!("JUMP-WHEN @a ro[0]\n{u1}\nHALT\nLABEL @a\n{u2}\nHALT\n"),
+            format!("HALT\nLABEL @a\n{u1}\nJUMP @b\n{u2}\nLABEL @b\nHALT\n{u2}\n"),
+        ] {
+            cx.run.count("skeleton case");
+            run_case(&mut cx, &format!("{env}{body}"));
+        }
+    }
     let exhaustive_cases = cx.run.evaluations;
 
     // (2) seeded random programs over random sub-environments
@@ -681,7 +786,10 @@ fn main() {
     }
     cx.run.finish(
         "exhaustive: the full environment (3 externs, 3 declarations, 7 frames, 3 waveforms, 9 calibrations, 2 gate \
-         definitions, 2 circuits) with every body of length <= 2 over 33 instructions (thorough: plus length 3 over 10); \
+         definitions, 2 circuits) with every body of length <= 2 over 33 instructions (thorough: plus length 3 over 10), \
+         and 22 control-flow skeletons (HALT / JUMP / JUMP-WHEN / JUMP-UNLESS / LABEL before, between and after; HALT first; \
+         several HALTs; dead code after JUMP; code only reachable behind a HALT) x 27 instructions that are the sole user of a \
+         frame / waveform / extern (directly, via DEFCAL / DEFCAL MEASURE expansion, via CALL in a calibration body); \
          random: random sub-environments with bodies of 0..8 instructions incl. classical, control flow (several blocks) and \
          unschedulable gates. Distinct by program text; non-trivial = simplification removed at least one definition and the \
          body is not empty.",
